@@ -67,8 +67,15 @@ func (mbp *multipartBodyProcessor) ProcessRequest(reader io.Reader, v plugintype
 					v.MultipartStrictError().(*collections.Single).Set("1")
 					return err
 				}
-				defer temp.Close()
+				// Register the file before writing to it, so that closing the
+				// transaction removes it even if storing the upload fails.
+				filesTmpNamesCol.Add("", temp.Name())
 				sz, err := io.Copy(temp, p)
+				// A failed close means the upload was not stored: treat it like
+				// a failed write instead of ignoring it in a defer.
+				if cerr := temp.Close(); cerr != nil && (err == nil || errors.Is(err, io.ErrUnexpectedEOF)) {
+					err = cerr
+				}
 				if err != nil {
 					if !errors.Is(err, io.ErrUnexpectedEOF) {
 						v.MultipartStrictError().(*collections.Single).Set("1")
@@ -77,7 +84,6 @@ func (mbp *multipartBodyProcessor) ProcessRequest(reader io.Reader, v plugintype
 					seenUnexpectedEOF = true
 				}
 				size = sz
-				filesTmpNamesCol.Add("", temp.Name())
 			} else {
 				sz, err := io.Copy(io.Discard, p)
 				if err != nil {
